@@ -190,8 +190,10 @@ impl Property for C12 {
         let (clock, _) = draw_clock(rng);
         let env = draw_env(rng, clock, true);
         let tol = rng.pick(&[1e-6f32, 1e-3, 1e-1]);
-        let m_eval = eval_size(rng);
-        let m_pred = if rng.chance(0.8) { eval_size(rng) } else { 0 };
+        let wide = very_wide(&net);
+        let size = |rng: &mut Rng| if wide { rng.range(60, 130) } else { eval_size(rng) };
+        let m_eval = size(rng);
+        let m_pred = if rng.chance(0.8) { size(rng) } else { 0 };
         let xs: Vec<Vec<f32>> = (0..m_eval).map(|_| gen_input(rng, &net)).collect();
         let pred: Vec<Vec<f32>> = (0..m_pred).map(|_| gen_input(rng, &net)).collect();
         // one case in three first trains the network (possibly stopping early), so the
